@@ -667,11 +667,18 @@ impl Interp {
                     V::Struct(_, f) => f,
                     _ => Vec::new(),
                 };
+                let declared = self.prog.strukt(&name).is_some() || matches!(ty, GoType::TStruct { .. });
                 for (n, fe) in fields {
                     let v = self.expr(gid, fe, fr, depth)?;
                     match val.iter_mut().find(|(k, _)| &**k == n.as_str()) {
                         Some(slot) => slot.1 = v,
-                        None => val.push((n.as_str().into(), v)),
+                        None => {
+                            if declared {
+                                // Go rejects a composite literal naming a field the type lacks
+                                return self.invalid(format!("unknown field {n} in struct literal of type {name}"));
+                            }
+                            val.push((n.as_str().into(), v))
+                        }
                     }
                 }
                 Ok(V::Struct(name, val))
